@@ -90,6 +90,8 @@ class Gen:
         [dict(identifier=1, bank_range=(0x10, 0x1F), addr_range=(0x8000, 0xFFFF), mask=0x8000, mirror_bank_range=(0x90, 0x9F)),
          dict(identifier=2, bank_range=(0x20, 0x2F), addr_range=(0, 0xFFFF), mask=0x10000),
          dict(identifier=3, bank_range=(0x7E, 0x7F), addr_range=(0, 0xFFFF), mask=0x10000, writable=1)],
+        [dict(identifier=1, bank_range=(0x00, 0x3F), addr_range=(0x8000, 0xFFFF), mask=0x10000, mirror_bank_range=(0x80, 0xBF)),
+         dict(identifier=2, bank_range=(0x7E, 0x7F), addr_range=(0, 0xFFFF), mask=0x10000, writable=1)],
     ]
 
     def rom_addr(self) -> int:
